@@ -106,3 +106,27 @@ Theorem C06_code_through_helpers_return : forall x s q f,
   req (grad x (gen_ret_floor_through_plain s q f)) (grad x s) = true.
 Proof. intros; repeat split; [apply link_ret_sign_through | apply link_ret_ceil_through | apply link_ret_floor_through]. Qed.
 Print Assumptions C06_code_through_helpers_return.
+
+(* ---- quantized_relu.__call__ regenerated from the source (coq/gen/ReluCallGen.v): the unquantized surrogate x_u, whose
+        gradient is the one the straight-through return passes on.  With is_quantized_clip it is the (leaky) ReLU below
+        2^integer - 2^(integer - non-sign bits) -- the largest code of the format, one non-sign bit less when a slope takes the
+        sign bit -- and that constant above it, so the gradient is zero exactly in the clipped region. ---- *)
+From QV Require Import Quant.Fixed Quant.ReluSrc Link.ReluCallLink.
+From QVGen Require ReluCallGen.
+Theorem C06_source_relu_translated : ReluCallGen.relucall_translation_ok = true.
+Proof. exact link_relucall_ok. Qed.
+Print Assumptions C06_source_relu_translated.
+Theorem C06_source_relu_surrogate_bound_is_the_largest_code : forall c,
+  ReluCallGen.gen_qr_top (qr_bits c) (qr_int c) (leaky_of c) = rsub (rpow2 (qr_int c)) (rpow2 (qr_se c)).
+Proof. exact link_qr_top. Qed.
+Print Assumptions C06_source_relu_surrogate_bound_is_the_largest_code.
+Theorem C06_source_relu_surrogate_is_the_bounded_leaky_relu : forall c has_rub slope rub x,
+  ReluCallGen.gen_qr_xu (qr_bits c) (qr_int c) (leaky_of c) true has_rub slope rub x =
+  let top := rsub (rpow2 (qr_int c)) (rpow2 (qr_se c)) in if rle x top then lrelu slope x else top.
+Proof. exact link_qr_xu_clipped. Qed.
+Print Assumptions C06_source_relu_surrogate_is_the_bounded_leaky_relu.
+Theorem C06_source_relu_surrogate_without_quantized_clip : forall c slope rub x,
+  ReluCallGen.gen_qr_xu (qr_bits c) (qr_int c) (leaky_of c) false true slope rub x = (if rle x rub then lrelu slope x else rub) /\
+  ReluCallGen.gen_qr_xu (qr_bits c) (qr_int c) (leaky_of c) false false slope rub x = lrelu slope x.
+Proof. exact link_qr_xu_unclipped. Qed.
+Print Assumptions C06_source_relu_surrogate_without_quantized_clip.
